@@ -36,6 +36,10 @@ type traceEvt struct {
 	srcOff *Term
 }
 
+type crashImage struct {
+	files map[string]*fileObj // snapshot (layers frozen)
+}
+
 type fileModel struct {
 	files map[string]*fileObj
 	trace []traceEvt
@@ -132,6 +136,56 @@ func (ex *Exec) fsCrash(k int, tear *Term) {
 		n := tc.Ite(tc.Cmp(OULT, tear, e.n), tear, e.n)
 		apply(e, n)
 	}
+	// remember the image for native replay
+	img := crashImage{files: map[string]*fileObj{}}
+	for name, f := range nf.files {
+		if f.exists {
+			img.files[name] = &fileObj{name: name, data: &ByteArr{top: f.data.snapshot(), size: f.data.size, ex: ex}, size: f.size, exists: true}
+		}
+	}
+	ex.crashImages = append(ex.crashImages, img)
+	ex.recordInput(fmt.Sprintf("crash_%d", len(ex.crashImages)-1), "crash", len(ex.crashImages)-1, nil)
+}
+
+// dumpCrashImages evaluates the crash images under the solver's current model.
+func (ex *Exec) dumpCrashImages() []map[string][]byte {
+	ex.noSimp = true // no solver queries here: the current model must stay valid
+	defer func() { ex.noSimp = false }()
+	var out []map[string][]byte
+	for _, img := range ex.crashImages {
+		m := map[string][]byte{}
+		for name, f := range img.files {
+			sz, ok := ex.solver.EvalTerm(f.size)
+			if !ok || sz > 1<<22 {
+				continue
+			}
+			bs := make([]byte, sz)
+			var symIdx []int
+			var symTerms []*Term
+			for i := uint64(0); i < sz; i++ {
+				t := f.data.Read(ex.tc.BV(64, i))
+				if t.IsConst() {
+					bs[i] = byte(t.val)
+				} else {
+					symIdx = append(symIdx, int(i))
+					symTerms = append(symTerms, t)
+				}
+			}
+			for off := 0; off < len(symTerms); off += 256 {
+				end := off + 256
+				if end > len(symTerms) {
+					end = len(symTerms)
+				}
+				vals := ex.solver.Values(symTerms[off:end])
+				for j := off; j < end; j++ {
+					bs[symIdx[j]] = byte(vals[ref(symTerms[j])])
+				}
+			}
+			m[name] = bs
+		}
+		out = append(out, m)
+	}
+	return out
 }
 
 func (ex *Exec) fsGetNoTrace(name string) *fileObj {
@@ -277,7 +331,9 @@ func registerFileIntrinsics(reg func(string, intrinsic)) {
 
 	// ---- vf file-system helpers ----
 	reg(vfPkg+".FsTraceLen", func(ex *Exec, fr *frame, fn *ssa.Function, args []Value) Value {
-		return ex.i64(uint64(len(ex.fs.trace)))
+		n := len(ex.fs.trace)
+		ex.recordInput(fmt.Sprintf("tracelen_%d", len(ex.inputs)), "tracelen", n, nil)
+		return ex.i64(uint64(n))
 	})
 	reg(vfPkg+".FsTraceKind", func(ex *Exec, fr *frame, fn *ssa.Function, args []Value) Value {
 		k := int(ex.concretize(args[0].(*Term), "FsTraceKind index"))
